@@ -40,6 +40,7 @@ func init() {
 		ID: "C06",
 		Rule: "CNF formulas as for C01 plus harder uniform 3-SAT (30..90 variables) with the learned-clause limit lowered to 4 or 16, always solved with certificate generation to a channel; the emitted lines are replayed by the verified RUP checker (GS.rupFirstBad / GS.rupRefutes) and the run is repeated with certification off. Non-trivial = the search ran (status undetermined after parsing); distinct = distinct (formula, front-end, configuration).",
 		Gens:    c06,
+		Slices:  []SliceRef{{"XSEARCH", 500, 20000}},
 		Extra:   []ExtraGen{{Gen{Name: "unit-learning-gadgets", Make: func(r *Rng, tier string) interface{} { return genUnitGadgets(r, tier) }}, 20, 300}},
 		Run:     func(o *Oracle, d json.RawMessage, oc *Outcome) { runCnfCase(o, d, oc, "C06") },
 		Cases:   defCases(3000, 40000),
